@@ -643,25 +643,19 @@ fn harness_op(spec: &OpSpec) -> Option<Outcome> {
     }
 }
 
-fn exec_rust(spec: &OpSpec, rootfd: i32) -> Outcome {
-    if let Some(o) = harness_op(spec) {
-        return o;
-    }
-    let bfd = unsafe { BorrowedFd::borrow_raw(if rootfd >= 0 { rootfd } else { 0 }) };
-    let mut root = RootRef::from_fd(bfd);
-    if spec.no_symlinks {
-        root.set_resolver_flags(ResolverFlags::NO_SYMLINKS);
-    }
-    match &spec.op {
-        Op::OpenRoot { path } => rust_fd(pathrs::Root::open(path)),
-        Op::Resolve { path, nofollow: false } => rust_fd(root.resolve(path)),
-        Op::Resolve { path, nofollow: true } => rust_fd(root.resolve_nofollow(path)),
-        Op::OpenSubpath { path, flags } => rust_fd(root.open_subpath(path, OpenFlags::from_bits_retain(*flags))),
-        Op::Readlink { path, .. } => match root.readlink(path) {
-            Ok(p) => Outcome::Bytes(p.as_os_str().as_bytes().to_vec()),
-            Err(e) => rust_err(e),
-        },
-        Op::Create { path, kind } => {
+/// the operations of a root, written once for `RootRef` (borrowed descriptor) and once for the
+/// owned `Root` (whose methods are separate wrappers in the library)
+macro_rules! root_level_op {
+    ($root:expr, $spec:expr) => {
+        match &$spec.op {
+            Op::Resolve { path, nofollow: false } => Some(rust_fd($root.resolve(path))),
+            Op::Resolve { path, nofollow: true } => Some(rust_fd($root.resolve_nofollow(path))),
+            Op::OpenSubpath { path, flags } => Some(rust_fd($root.open_subpath(path, OpenFlags::from_bits_retain(*flags)))),
+            Op::Readlink { path, .. } => Some(match $root.readlink(path) {
+                Ok(p) => Outcome::Bytes(p.as_os_str().as_bytes().to_vec()),
+                Err(e) => rust_err(e),
+            }),
+            Op::Create { path, kind } => {
             let it = match kind {
                 CreateKind::File(m) => InodeType::File(Permissions::from_mode(*m)),
                 CreateKind::Dir(m) => InodeType::Directory(Permissions::from_mode(*m)),
@@ -672,18 +666,65 @@ fn exec_rust(spec: &OpSpec, rootfd: i32) -> Outcome {
                 CreateKind::Blk(m, d) => InodeType::BlockDevice(Permissions::from_mode(*m), *d),
                 CreateKind::RawMknod(m, d) => InodeType::CharacterDevice(Permissions::from_mode(*m), *d),
             };
-            rust_unit(root.create(path, &it))
+            Some(rust_unit($root.create(path, &it)))
         }
-        Op::CreateFile { path, flags, mode } => {
-            rust_fd(root.create_file(path, OpenFlags::from_bits_retain(*flags), &Permissions::from_mode(*mode)))
+            Op::CreateFile { path, flags, mode } => {
+            Some(rust_fd($root.create_file(path, OpenFlags::from_bits_retain(*flags), &Permissions::from_mode(*mode))))
         }
-        Op::MkdirAll { path, mode } => rust_fd(root.mkdir_all(path, &Permissions::from_mode(*mode))),
-        Op::RemoveFile { path } => rust_unit(root.remove_file(path)),
-        Op::RemoveDir { path } => rust_unit(root.remove_dir(path)),
-        Op::RemoveAll { path } => rust_unit(root.remove_all(path)),
-        Op::Rename { src, dst, flags } => {
-            rust_unit(root.rename(Path::new(src), Path::new(dst), RenameFlags::from_bits_retain(*flags)))
+            Op::MkdirAll { path, mode } => Some(rust_fd($root.mkdir_all(path, &Permissions::from_mode(*mode)))),
+            Op::RemoveFile { path } => Some(rust_unit($root.remove_file(path))),
+            Op::RemoveDir { path } => Some(rust_unit($root.remove_dir(path))),
+            Op::RemoveAll { path } => Some(rust_unit($root.remove_all(path))),
+            Op::Rename { src, dst, flags } => {
+            Some(rust_unit($root.rename(Path::new(src), Path::new(dst), RenameFlags::from_bits_retain(*flags))))
         }
+            Op::CloneRoot => Some(rust_fd($root.try_clone())),
+            _ => None,
+        }
+    };
+}
+
+/// half of the Rust-facade operations go through the owned `Root` (decided by the operation itself,
+/// so that a replay makes the same choice)
+fn owned_root_variant(spec: &OpSpec) -> bool {
+    let mut h = 0xcbf29ce484222325u64;
+    crate::sys::fnv(&mut h, spec.to_json().to_string().as_bytes());
+    h & 1 == 1
+}
+
+fn exec_rust(spec: &OpSpec, rootfd: i32) -> Outcome {
+    if let Some(o) = harness_op(spec) {
+        return o;
+    }
+    let bfd = unsafe { BorrowedFd::borrow_raw(if rootfd >= 0 { rootfd } else { 0 }) };
+    if owned_root_variant(spec) && rootfd >= 0 {
+        // the owned Root: a duplicate of the descriptor made (and later closed) by the harness
+        seam::hypercall(seam::HC_HARNESS, 0, 1);
+        let d = unsafe { libc::fcntl(rootfd, libc::F_DUPFD_CLOEXEC, 3) };
+        seam::hypercall(seam::HC_HARNESS, 0, 0);
+        if d >= 0 {
+            let mut root = pathrs::Root::from_fd(unsafe { OwnedFd::from_raw_fd(d) });
+            if spec.no_symlinks {
+                root.set_resolver_flags(ResolverFlags::NO_SYMLINKS);
+            }
+            let r = root_level_op!(root, spec);
+            seam::hypercall(seam::HC_HARNESS, 0, 1);
+            drop(root);
+            seam::hypercall(seam::HC_HARNESS, 0, 0);
+            if let Some(o) = r {
+                return o;
+            }
+        }
+    }
+    let mut root = RootRef::from_fd(bfd);
+    if spec.no_symlinks {
+        root.set_resolver_flags(ResolverFlags::NO_SYMLINKS);
+    }
+    if let Some(o) = root_level_op!(root, spec) {
+        return o;
+    }
+    match &spec.op {
+        Op::OpenRoot { path } => rust_fd(pathrs::Root::open(path)),
         Op::Reopen { slot: s, flags } => {
             let fd = slot(*s);
             if fd < 0 {
@@ -693,7 +734,6 @@ fn exec_rust(spec: &OpSpec, rootfd: i32) -> Outcome {
             let h = HandleRef::from_fd(unsafe { BorrowedFd::borrow_raw(fd) });
             rust_fd(h.reopen(OpenFlags::from_bits_retain(*flags)))
         }
-        Op::CloneRoot => rust_fd(root.try_clone()),
         Op::ProcOpen { handle, base, path, flags, follow } => {
             let tab = PROC_HANDLES.get();
             let h = match handle.and_then(|i| tab.get(i)).and_then(|x| x.as_ref()) {
